@@ -37,12 +37,58 @@ def run_demo(d):
     return sh([gobin, "run", "-tags", "verif", "."], d, 600)
 
 
+def import_harmless(pids):
+    """behaviour-preserving rewrites from /tmp/wt-out3/<id>/R*.diff: apply, build (with and without the
+    verif tag), run the existing tests; kept under /verif/harmless/<id>-R<n>/"""
+    for pid in pids:
+        wt, out = "/tmp/wt/" + pid, "/tmp/wt-out3/" + pid
+        meta = json.load(open(os.path.join(out, "meta.json")))
+        by = {c["name"]: c for c in meta.get("changes", [])}
+        for name in ("R1", "R2", "R3"):
+            diff = os.path.join(out, name + ".diff")
+            if not os.path.exists(diff):
+                continue
+            sh(["git", "checkout", "--", "."], wt)
+            sh(["git", "clean", "-fdq"], wt)
+            rc, o = sh(["git", "apply", "--check", diff], wt)
+            if rc != 0:
+                print(pid, name, "REJECTED: does not apply", o[:200])
+                continue
+            touched = [l[6:].strip() for l in open(diff) if l.startswith("+++ b/")]
+            if any(t.endswith("_test.go") or t.endswith("verif_hooks.go") for t in touched):
+                print(pid, name, "REJECTED: touches tests/hooks", touched)
+                continue
+            sh(["git", "apply", diff], wt)
+            rc_b, _ = sh(["go", "build", "./..."], wt)
+            rc_v, _ = sh(["go", "build", "-tags", "verif", "./..."], wt)
+            rc_t, o_t = sh(["go", "test", "-vet=off", "-count=1", "./..."], wt)
+            sh(["git", "checkout", "--", "."], wt)
+            sh(["git", "clean", "-fdq"], wt)
+            ok = rc_b == 0 and rc_v == 0 and rc_t == 0
+            print("%s-%s build=%s verif-build=%s tests=%s -> %s" % (pid, name, rc_b, rc_v, rc_t, "CONFIRMED" if ok else "NOT CONFIRMED"))
+            if not ok:
+                continue
+            dst = os.path.join(ROOT, "harmless", "%s-%s" % (pid, name))
+            if os.path.exists(dst):
+                shutil.rmtree(dst)
+            os.makedirs(dst)
+            shutil.copy(diff, os.path.join(dst, "patch.diff"))
+            c = by.get(name, {})
+            json.dump(dict(property=pid, name=name, origin="fresh sub-agent asked for a behaviour-preserving rewrite of the code the property is anchored in",
+                           summary=c.get("summary"), files=touched, why_behaviour_is_identical=c.get("why_behaviour_is_identical"),
+                           confirmed=dict(applies=True, builds=True, builds_with_verif_tag=True, existing_tests_pass=True)),
+                      open(os.path.join(dst, "meta.json"), "w"), indent=1)
+    return 0
+
+
 def main():
     outroot, rename = "/tmp/wt-out", {"A": "A", "B": "B"}
     args = sys.argv[1:]
     if args and args[0] == "--round2":
         outroot, rename = "/tmp/wt-out2", {"A": "C", "B": "D"}
         args = args[1:]
+    if args and args[0] == "--harmless":
+        return import_harmless(args[1:])
     for pid in args:
         wt, out = "/tmp/wt/" + pid, outroot + "/" + pid
         meta = json.load(open(os.path.join(out, "meta.json")))
